@@ -12,7 +12,7 @@ RULE = ('every history over the five writer calls {new_change, new_file, '
         'write_preamble, write_meta, write_diff} up to length L (counter '
         'history_max_len) is executed on a real DiffXWriter over an '
         'instrumented stream; before each step one must-raise '
-        'invalid-argument variant (rotating through a 30-entry catalogue) is '
+        'invalid-argument variant (rotating through a 38-entry catalogue) is '
         'fired on the same writer, and hostile option values (unknown / '
         'non-ASCII / malformed codec names, odd indents) are fired on a '
         'forked writer under the weaker oracle "raises => atomic, accepted '
@@ -55,6 +55,15 @@ MUST_RAISE = [
     ('write_preamble', ('',), {}),
     ('write_preamble', ('x\n',), {'line_endings': 'mac'}),
     ('write_preamble', ('x\n',), {'mimetype': 'text/html'}),
+    # a valid choice followed / preceded by something
+    ('write_preamble', ('x\n',), {'mimetype': 'text/markdown; variant=GFM'}),
+    ('write_preamble', ('x\n',), {'mimetype': 'text/plain;'}),
+    ('write_preamble', ('x\n',), {'mimetype': 'text/plain, a=b'}),
+    ('write_preamble', ('x\n',), {'mimetype': ' text/plain'}),
+    ('write_preamble', ('x\n',), {'line_endings': 'unix '}),
+    ('write_preamble', ('x\n',), {'line_endings': 'dos\n'}),
+    ('write_diff', (b'x\n',), {'diff_type': 'text;binary'}),
+    ('write_diff', (b'x\n',), {'line_endings': 'unix,dos'}),
     ('write_preamble', ('é\n',), {'encoding': 'ascii'}),
     ('write_preamble', ('\ud800\n',), {'encoding': 'utf-8'}),
     # lone surrogates of every range (os.fsdecode() produces U+DC80..DCFF)
